@@ -58,6 +58,30 @@ func c08(w []string) string {
 			}
 			return fmt.Sprint(h)
 		})
+	case "rowspec":
+		// thorough tier: one whole row of Times and of Div against the specification computed HERE, bit by bit
+		// (shift-and-xor product reduced modulo 0x1100B; division through the product with the inverse found by search
+		// in the row itself), independent of gopar's tables and of the Coq model
+		a := atoi(w[1])
+		return guard(func() string {
+			inv := make([]int, 65536) // inv[x*a] = x  (a != 0): x*a runs through the whole field
+			for b := 0; b < 65536; b++ {
+				s := specMul(a, b)
+				if g := int(gf2p16.T(a).Times(gf2p16.T(b))); g != s {
+					return fmt.Sprintf("bad times %d*%d impl=%d spec=%d", a, b, g, s)
+				}
+				inv[s] = b
+			}
+			if a != 0 {
+				// c / a is the b with b*a = c
+				for c := 0; c < 65536; c++ {
+					if g := int(gf2p16.T(c).Div(gf2p16.T(a))); g != inv[c] {
+						return fmt.Sprintf("bad div %d/%d impl=%d spec=%d", c, a, g, inv[c])
+					}
+				}
+			}
+			return "ok"
+		})
 	case "inv":
 		a := gf2p16.T(atoi(w[1]))
 		return guard(func() string { return fmt.Sprint(int(a.Inverse())) })
@@ -76,4 +100,20 @@ func c08(w []string) string {
 		})
 	}
 	panic("c08: bad command")
+}
+
+// specMul is the reduced carry-less product in GF(2)[x]/(x^16+x^12+x^3+x+1), written from the definition
+func specMul(a, b int) int {
+	r := 0
+	for b != 0 {
+		if b&1 != 0 {
+			r ^= a
+		}
+		b >>= 1
+		a <<= 1
+		if a&0x10000 != 0 {
+			a ^= 0x1100B
+		}
+	}
+	return r
 }
